@@ -1160,3 +1160,315 @@ def case_audit_find_sample_size(rep):
                     if total != max(exp.values()):
                         rep.fail("without style information the audit's estimate is the largest contest estimate", inp, got=total, expected=max(exp.values()))
     rep.sample({"shape": [2, 1], "estimates": [60, 3, 17], "proved": [False, False, False], "expected": {"c0": 60, "c1": 17}})
+
+
+# =========================================================================================== C02 / C03 / C06 / C09 / C14: native companions of the deductive scripts
+
+MARK_ENCODINGS = [0, 1, 2, True, False, "x", "", None, 0.0, 3.5]
+
+
+def _truthy(v):
+    return bool(v)
+
+
+def case_assorters(rep):
+    """C02: assorter values, ranges and the iff with the social choice function, over every mark pattern and encoding"""
+    from shangrla.core.Audit import CVR, Contest, Assertion
+    rep.bound = "contests with 3 candidates and 1-2 winners; every card = each candidate absent or marked with one of 10 encodings " \
+                "(0,1,2,True,False,'x','',None,0.0,3.5), card lacking the contest; ballot collections of <= 3 (4) cards; shares f in {.3,.5,2/3}"
+    cands = ["A", "B", "C"]
+    opts = [("absent",)] + [("mark", e) for e in MARK_ENCODINGS]
+    cards = []
+    for combo in itertools.product(range(len(opts)), repeat=3):
+        v = {}
+        for c, k in zip(cands, combo):
+            if opts[k][0] == "mark":
+                v[c] = opts[k][1]
+        cards.append({"con": v})
+    cards.append({"other": {"A": 1}})
+    cards.append({})
+    mk = lambda d: CVR(id="c", votes=copy.deepcopy(d))
+    # per-card values
+    for winners in (["A"], ["A", "B"]):
+        losers = [c for c in cands if c not in winners]
+        con = Contest(id="con", cards=100, candidates=cands, winner=winners, n_winners=len(winners))
+        asns = Assertion.make_plurality_assertions(con, winners, losers)
+        if sorted(asns.keys()) != sorted(f"{w} v {l}" for w in winners for l in losers):
+            rep.fail("keys = winners x losers", {"winners": winners}, got=sorted(asns.keys()))
+        for d in cards:
+            for w in winners:
+                for l in losers:
+                    rep.case(("plur", tuple(winners), json.dumps(d, default=str), w, l))
+                    vw = _truthy(d.get("con", {}).get(w, False)) if "con" in d else False
+                    vl = _truthy(d.get("con", {}).get(l, False)) if "con" in d else False
+                    exp = (int(vw) - int(vl) + 1) / 2
+                    try:
+                        got = asns[f"{w} v {l}"].assorter.assort(mk(d))
+                    except Exception as ex:
+                        rep.fail("plurality assorter does not raise", {"card": d, "pair": [w, l]}, got=type(ex).__name__ + ": " + str(ex)[:60])
+                        continue
+                    if got != exp or not (0 <= got <= asns[f"{w} v {l}"].assorter.upper_bound):
+                        rep.fail("plurality assorter = (w - l + 1)/2 in [0, bound]", {"card": d, "pair": [w, l]}, got=got, expected=exp)
+    for f in (0.3, 0.5, 2 / 3):
+        con = Contest(id="con", cards=100, candidates=cands, winner=["A"], share_to_win=f, choice_function="SUPERMAJORITY")
+        asn = Assertion.make_supermajority_assertion(con, share_to_win=f, winner="A", loser=["B", "C"])["A v ALL_OTHERS"]
+        for d in cards:
+            rep.case(("super", f, json.dumps(d, default=str)))
+            marks = [c for c in cands if "con" in d and _truthy(d["con"].get(c, False))]
+            exp = ((1 if marks == ["A"] else 0) / (2 * f)) if len(marks) == 1 else 0.5
+            try:
+                got = asn.assorter.assort(mk(d))
+            except Exception as ex:
+                rep.fail("super-majority assorter does not raise", {"card": d, "share": f}, got=type(ex).__name__ + ": " + str(ex)[:60])
+                continue
+            if not math.isclose(got, exp) or not (0 <= got <= asn.assorter.upper_bound + 1e-15):
+                rep.fail("super-majority assorter = w/(2f) for a valid ballot else 1/2, in [0, 1/(2f)]", {"card": d, "share": f}, got=got, expected=exp)
+    # collections: mean > 1/2 iff the winners really won; margin from tally = 2 mean - 1
+    simple = [{"con": {"A": 1}}, {"con": {"B": 1}}, {"con": {"C": 2}}, {"con": {"A": True, "B": "x"}}, {"con": {}}, {"other": {}}, {"con": {"A": 0, "C": 1}}]
+    nmax = 4 if thorough(rep) else 3
+    for n in range(1, nmax + 1):
+        for coll in itertools.combinations_with_replacement(range(len(simple)), n):
+            cl = [mk(simple[k]) for k in coll]
+            votes = {c: sum(1 for k in coll if _truthy(simple[k].get("con", {}).get(c, False))) for c in cands}
+            for winners in (["A"], ["A", "B"]):
+                losers = [c for c in cands if c not in winners]
+                con = Contest(id="con", cards=n, candidates=cands, winner=winners, n_winners=len(winners))
+                asns = Assertion.make_plurality_assertions(con, winners, losers)
+                rep.case(("coll", coll, tuple(winners)))
+                all_gt = all(a.assorter.mean(cl, use_style=False) > 0.5 for a in asns.values())
+                truth = all(votes[w] > votes[l] for w in winners for l in losers)
+                if all_gt != truth:
+                    rep.fail("all assorter means exceed 1/2 exactly when every winner has more votes than every loser",
+                             {"cards": [simple[k] for k in coll], "winners": winners}, got=all_gt, expected=truth)
+                Contest.tally({"con": con}, cl, enforce_rules=False)
+                for key, a in asns.items():
+                    a.find_margin_from_tally()
+                    if not math.isclose(a.margin, 2 * a.assorter.mean(cl, use_style=False) - 1, abs_tol=1e-12):
+                        rep.fail("margin from the vote tally = 2 mean - 1 over the same cards", {"cards": [simple[k] for k in coll], "pair": key},
+                                 got=a.margin, expected=2 * a.assorter.mean(cl, use_style=False) - 1)
+            for f in (0.5, 2 / 3):
+                con = Contest(id="con", cards=n, candidates=cands, winner=["A"], share_to_win=f, choice_function="SUPERMAJORITY")
+                asn = Assertion.make_supermajority_assertion(con, share_to_win=f, winner="A", loser=["B", "C"])["A v ALL_OTHERS"]
+                valid = [k for k in coll if sum(1 for c in cands if _truthy(simple[k].get("con", {}).get(c, False))) == 1]
+                wv = sum(1 for k in valid if _truthy(simple[k]["con"].get("A", False)))
+                got = asn.assorter.mean(cl, use_style=False) > 0.5
+                if got != (wv > f * len(valid) + 1e-12) and not math.isclose(wv, f * len(valid)):
+                    rep.fail("super-majority mean exceeds 1/2 exactly when the winner's votes exceed the share of the valid votes",
+                             {"cards": [simple[k] for k in coll], "share": f}, got=got, expected=(wv, len(valid)))
+    rep.sample({"card": {"con": {"A": 2, "B": ""}}, "pair": ["A", "B"], "expected": 1.0})
+
+
+def case_overstatement(rep):
+    """C03 / C06 / C08: overstatement conventions, the population identity on whole populations, ranges, phantom scoring"""
+    from shangrla.core.Audit import CVR, Contest, Assertion, Audit, Stratum
+    rep.exhaustive = False
+    k = 1200 if thorough(rep) else 300
+    rep.bound = f"{k} random populations of 1-8 cards: CVR/MVR pairs with arbitrary discrepancies, missing contests, phantoms inside and " \
+                "outside pools, 2 tally pools (each pooled or not), style on/off; assorters: plurality and super-majority (f in {.4,.6})"
+    rng = rep.rng
+    cands = ["A", "B"]
+    for trial in range(k):
+        n = rng.randint(1, 8)
+        use_style = rng.random() < .5
+        kind = rng.choice(["plur", "super"])
+        f = rng.choice([.4, .6])
+        pool_on = {"p1": rng.random() < .5, "p2": rng.random() < .5}
+        cvrs, mvrs = [], []
+        for i in range(n):
+            tp = rng.choice(["p1", "p2"])
+            ph = rng.random() < .2
+            lists = rng.random() < .8
+            votes = {"con": {rng.choice(cands): 1} if rng.random() < .8 else {}} if (lists and not ph) else ({"con": {}} if lists else {"oth": {}})
+            cvrs.append(CVR(id=str(i), votes=votes, phantom=ph, tally_pool=tp, pool=pool_on[tp]))
+            mph = rng.random() < .2
+            mvotes = {"con": {rng.choice(cands): 1} if rng.random() < .8 else {}} if rng.random() < .85 else {"oth": {}}
+            mvrs.append(CVR(id=str(i), votes=mvotes if not mph else {}, phantom=mph))
+        cvrs = CVR.merge_cvrs(cvrs)
+        pools = CVR.pool_contests(cvrs)
+        CVR.add_pool_contests(cvrs, pools)
+        if kind == "plur":
+            con = Contest(id="con", cards=n, candidates=cands, winner=["A"], audit_type="ONEAUDIT", use_style=use_style)
+            asn = Assertion.make_plurality_assertions(con, ["A"], ["B"])["A v B"]
+        else:
+            con = Contest(id="con", cards=n, candidates=cands, winner=["A"], share_to_win=f, choice_function="SUPERMAJORITY", audit_type="ONEAUDIT", use_style=use_style)
+            asn = Assertion.make_supermajority_assertion(con, share_to_win=f, winner="A", loser=["B"])["A v ALL_OTHERS"]
+        audit = Audit()
+        audit.strata = {"s": Stratum(use_style=use_style, max_cards=n)}
+        pop = [i for i in range(n) if (not use_style) or cvrs[i].has_contest("con")]
+        if not pop:
+            continue
+        inp = {"trial": trial, "seed": rep.seed, "n": n, "use_style": use_style, "kind": kind, "f": f,
+               "cvrs": [{"votes": c.votes, "phantom": c.phantom, "pool": c.pool, "tally_pool": c.tally_pool} for c in cvrs],
+               "mvrs": [{"votes": m.votes, "phantom": m.phantom} for m in mvrs]}
+        rep.case(inp)
+        try:
+            asn.assorter.set_tally_pool_means(cvr_list=cvrs, use_style=use_style)
+            asn.set_margin_from_cvrs(audit, cvrs)
+            u, v = asn.assorter.upper_bound, asn.margin
+            B = [asn.overstatement_assorter(mvrs[i], cvrs[i], use_style=use_style) for i in pop]
+        except Exception as ex:
+            rep.fail("overstatement assorter does not raise on the cards under audit", inp, got=type(ex).__name__ + ": " + str(ex)[:80])
+            continue
+        A = []
+        for i in pop:
+            if mvrs[i].phantom or (use_style and not mvrs[i].has_contest("con")):
+                A.append(0.0)
+            else:
+                A.append(asn.assorter.assort(mvrs[i]))
+        lhs = np.mean(B) - 0.5
+        rhs = (2 * np.mean(A) - 1) / (2 * (2 * u - v))
+        if not math.isclose(lhs, rhs, abs_tol=1e-9):
+            rep.fail("mean(B) - 1/2 = (2 mean(A) - 1)/(2(2u - v)) over the cards under audit", inp, got=lhs, expected=rhs)
+        ub = 2 / (2 - v / u)
+        if v > 0 and not all(-1e-12 <= b <= ub + 1e-12 for b in B):
+            rep.fail("0 <= B <= 2/(2 - v/u)", inp, got=[min(B), max(B)], expected=[0, ub])
+        for i in pop:
+            ph = CVR(id="x", votes={}, phantom=True)
+            if asn.overstatement_assorter(ph, cvrs[i], use_style=use_style) > asn.overstatement_assorter(mvrs[i], cvrs[i], use_style=use_style) + 1e-12:
+                rep.fail("replacing a manual record by a phantom never increases the overstatement assorter", inp, got=i)
+            if cvrs[i].phantom and not cvrs[i].pool:
+                o = asn.assorter.overstatement(CVR(id="y", votes={"con": {}}), cvrs[i], use_style=use_style)
+                if not math.isclose(o, 0.5 - 0.5):
+                    rep.fail("an un-pooled phantom CVR is scored as a non-vote (1/2)", inp, got=o)
+    rep.sample({"kind": "plur", "n": 2, "use_style": True})
+
+
+def case_data_and_pvalues(rep):
+    """C06 / C07 / C09: mvrs_to_data filter, bound and range; set_p_values / summarize_status / reset on real tests"""
+    from shangrla.core.Audit import CVR, Contest, Assertion, Audit
+    from shangrla.core.NonnegMean import NonnegMean
+    rep.exhaustive = False
+    k = 800 if thorough(rep) else 250
+    rep.bound = f"{k} random samples of 1-10 (MVR, CVR) pairs, 1-3 contests with different risk limits / audit types / social choice functions"
+    rng = rep.rng
+    for trial in range(k):
+        contests = {}
+        ncon = rng.randint(1, 3)
+        n = rng.randint(1, 10)
+        use_style = rng.random() < .5
+        cvrs, mvrs = [], []
+        for i in range(n):
+            cv, mv = {}, {}
+            for ci in range(ncon):
+                if rng.random() < .75:
+                    cv[f"c{ci}"] = {rng.choice(["A", "B"]): 1}
+                if rng.random() < .8:
+                    mv[f"c{ci}"] = {rng.choice(["A", "B"]): 1}
+            cvrs.append(CVR(id=str(i), votes=cv, phantom=rng.random() < .1, sample_num=rng.random()))
+            mvrs.append(CVR(id=str(i), votes=mv, phantom=rng.random() < .1))
+        for ci in range(ncon):
+            at = rng.choice(["POLLING", "CARD_COMPARISON", "ONEAUDIT"])
+            sup = rng.random() < .3
+            thr = rng.random()
+            con = Contest(id=f"c{ci}", cards=40, candidates=["A", "B"], winner=["A"], risk_limit=rng.choice([.01, .05, .2]), audit_type=at,
+                          use_style=use_style, sample_threshold=thr, share_to_win=.6 if sup else None,
+                          choice_function="SUPERMAJORITY" if sup else "PLURALITY", test=NonnegMean.alpha_mart, estim=NonnegMean.shrink_trunc)
+            if sup:
+                con.assertions = Assertion.make_supermajority_assertion(con, share_to_win=.6, winner="A", loser=["B"], test=NonnegMean.alpha_mart,
+                                                                        estim=NonnegMean.shrink_trunc, test_kwargs={"eta": .7})
+            else:
+                con.assertions = Assertion.make_plurality_assertions(con, ["A"], ["B"], test=NonnegMean.alpha_mart, estim=NonnegMean.shrink_trunc,
+                                                                     test_kwargs={"eta": .7})
+            for a in con.assertions.values():
+                a.margin = rng.choice([.05, .2, .5])
+            contests[con.id] = con
+        inp = {"trial": trial, "seed": rep.seed}
+        rep.case(inp)
+        ok_all = True
+        try:
+            for con in contests.values():
+                for a in con.assertions.values():
+                    comparison = con.audit_type != "POLLING"
+                    if comparison and use_style and any(not cvrs[i].has_contest(con.id) and False for i in range(n)):
+                        pass
+                    # the property's wording of who contributes
+                    if comparison:
+                        idx = [i for i in range(n) if (not use_style) or (cvrs[i].has_contest(con.id) and cvrs[i].sample_num <= con.sample_threshold)]
+                    else:
+                        idx = list(range(n))
+                    try:
+                        d, u = a.mvrs_to_data(mvrs, cvrs)
+                    except ValueError:
+                        continue
+                    ua = a.assorter.upper_bound
+                    exp_u = 2 / (2 - a.margin / ua) if comparison else ua
+                    if not math.isclose(u, exp_u):
+                        rep.fail("u = assorter bound (polling) / 2/(2 - v/u_a) (comparison)", inp, got=u, expected=exp_u)
+                    if comparison:
+                        exp_d = [a.overstatement_assorter(mvrs[i], cvrs[i], use_style=use_style) for i in idx]
+                    else:
+                        exp_d = [a.assorter.assort(mvrs[i]) for i in idx]
+                    if len(d) != len(exp_d) or not np.allclose(d, exp_d):
+                        rep.fail("only cards whose CVR lists the contest and whose sample number is within the threshold contribute, in order", inp,
+                                 got=list(map(float, d)), expected=exp_d)
+                    if len(d) and not (min(d) >= -1e-12 and max(d) <= u + 1e-12):
+                        rep.fail("data lie in [0, u]", inp, got=[float(min(d)), float(max(d))], expected=[0, u])
+            pmax = Assertion.set_p_values(contests, mvrs, cvrs)
+        except Exception as ex:
+            continue
+        worst = 0
+        for con in contests.values():
+            ps = []
+            for key, a in con.assertions.items():
+                d, u = a.mvrs_to_data(mvrs, cvrs)
+                a.test.u = u
+                p, hist = a.test.test(d) if len(d) else (a.p_value, a.p_history)
+                if len(d) and (not math.isclose(a.p_value, p) or len(a.p_history) != len(hist)):
+                    rep.fail("recorded p-value and history are what the assertion's configured test returns on its data", inp, got=a.p_value, expected=p)
+                ps.append(a.p_value)
+                if not (a.p_value <= con.risk_limit) == bool(a.proved) and not a.proved:
+                    rep.fail("proved reflects p <= the contest's own risk limit", inp)
+                ok_all = ok_all and a.p_value <= con.risk_limit
+            if con.max_p != max(ps):
+                rep.fail("a contest's measured risk is the largest p-value among its assertions", inp, got=con.max_p, expected=max(ps))
+            worst = max(worst, max(ps))
+        if pmax != worst:
+            rep.fail("the audit's measured risk is the largest among contests", inp, got=pmax, expected=worst)
+        aud = Audit()
+        if bool(aud.summarize_status(contests)) != ok_all:
+            rep.fail("complete iff every assertion of every contest has p <= that contest's own risk limit", inp)
+        Assertion.reset_p_values(contests)
+        for con in contests.values():
+            for key, a in con.assertions.items():
+                if a.p_value != 1 or list(a.p_history) != [] or a.proved or con.p_values[key] != 1 or con.proved[key]:
+                    rep.fail("reset restores p-value 1, empty history and unconfirmed status everywhere", inp)
+            if con.max_p != 1:
+                rep.fail("reset restores max_p = 1", inp)
+    rep.sample({"n": 3, "contests": 2})
+
+
+def case_irv_predicates(rep):
+    """C14 / C04: the audit's IRV assorters vs the generator's verdicts on every partial ranking (native), 3-5 candidates"""
+    from shangrla.core.Audit import CVR, Contest, Assertion
+    from shangrla.raire.raire_utils import NEBAssertion, NENAssertion
+    rep.bound = "candidate sets of size 3-4 (5 thorough) with numeric ids that are substrings of one another; every partial ranking; every (winner, loser) pair; " \
+                "every eliminated set not containing them"
+    for nc in range(3, 6 if thorough(rep) else 5):
+        cands = ["1", "2", "12", "21", "121"][:nc]
+        con = Contest(id="con", cards=10, candidates=cands, winner=[cands[0]], choice_function="IRV")
+        ranks = [p for r in range(0, nc + 1) for p in itertools.permutations(cands, r)]
+        for w, l in itertools.permutations(cands, 2):
+            rest = [c for c in cands if c not in (w, l)]
+            js = [{"winner": w, "loser": l, "assertion_type": "WINNER_ONLY", "already_eliminated": ""}]
+            nebs = Assertion.make_assertions_from_json(con, cands, js)
+            neb = NEBAssertion("con", w, l)
+            sets = [E for r in range(0, len(rest) + 1) for E in itertools.combinations(rest, r)]
+            nens = []
+            for E in sets:
+                js = [{"winner": w, "loser": l, "assertion_type": "IRV_ELIMINATION", "already_eliminated": list(E)}]
+                nens.append((E, list(Assertion.make_assertions_from_json(con, cands, js).values())[0], NENAssertion("con", w, l, list(E))))
+            for rk in ranks:
+                cvr = CVR(id="b", votes={"con": {c: k + 1 for k, c in enumerate(rk)}})
+                rcvr = {"con": {c: k for k, c in enumerate(rk)}}
+                rep.case((nc, w, l, rk))
+                got = list(nebs.values())[0].assorter.assort(cvr)
+                exp = (neb.is_vote_for_winner(rcvr) - neb.is_vote_for_loser(rcvr) + 1) / 2
+                if got != exp:
+                    rep.fail("WINNER_ONLY assorter = (w - l + 1)/2 of the generator's NEB verdicts", {"ranking": rk, "winner": w, "loser": l}, got=got, expected=exp)
+                for E, a_asn, nen in nens:
+                    got = a_asn.assorter.assort(cvr)
+                    exp = (nen.is_vote_for_winner(rcvr) - nen.is_vote_for_loser(rcvr) + 1) / 2
+                    if got != exp:
+                        rep.fail("IRV_ELIMINATION assorter = (w - l + 1)/2 of the generator's NEN verdicts",
+                                 {"ranking": rk, "winner": w, "loser": l, "eliminated": E}, got=got, expected=exp)
+    rep.sample({"ranking": ["2", "12", "1"], "winner": "1", "loser": "2", "eliminated": ["12"]})
